@@ -269,8 +269,16 @@ def run(ctx, rep):
     if adt:
         fields = [fd["name"] for fd in adt["variants"][0]["fields"]]
         ROUTING = {"processors", "process_channels", "validator_thread_handles"}
-        role = sorted(p_ for p_ in reach if p_.startswith(VD) and f.fns[p_].get("mir")
-                      and any(p_.startswith(VD + r) for r in ("dispatch_cdp_batch", "dispatch_by_id", "init_validator")))
+        # the dispatch role: every dispatcher method (and closure) reachable from dispatch_cdp_batch — whatever the
+        # per-packet step is split into
+        role_seen, role_st = set(), [p_ for p_ in reach if p_.startswith(VD + "dispatch_cdp_batch")]
+        while role_st:
+            x_ = role_st.pop()
+            if x_ in role_seen or not x_.startswith(VD):
+                continue
+            role_seen.add(x_)
+            role_st.extend(cg.edges.get(x_, ()))
+        role = sorted(p_ for p_ in role_seen if p_ in f.fns and f.fns[p_].get("mir"))
         rep.floor("R6.6-role", len(role), 4, "dispatch-role functions of ValidatorDispatcher (incl. closures)")
 
         def proj_fields(pl):
@@ -282,11 +290,13 @@ def run(ctx, rep):
             for i, j, st in b.stmts():
                 if st["k"] != "assign":
                     continue
-                if st["lhs"]["l"] == 1:
+                # self, or in a closure the local holding the captured `&mut self`
+                is_self = lambda l_: l_ == 1 or "ValidatorDispatcher<" in b.local_ty(l_)["s"]
+                if is_self(st["lhs"]["l"]):
                     for fl in proj_fields(st["lhs"]):
                         written.setdefault(fl, set()).add(p_)
                 rv = st["rv"]
-                if rv["k"] in ("ref", "rawptr") and rv.get("bk") not in ("shared", "fake") and rv["pl"]["l"] == 1:
+                if rv["k"] in ("ref", "rawptr") and rv.get("bk") not in ("shared", "fake") and is_self(rv["pl"]["l"]):
                     for fl in proj_fields(rv["pl"]):
                         written.setdefault(fl, set()).add(p_)
         state = sorted(set(written) - ROUTING)
@@ -302,7 +312,7 @@ def run(ctx, rep):
                             flows.append("%s: branch on self.%s" % (p_.split("::")[-1], m))
                 elif t["k"] == "call":
                     cal = callee_of(t)[0] if callee_of(t) else None
-                    if not cal or not (cal.startswith(LV) or "crossbeam_channel" in cal or cal.endswith("<impl [T]>::get") or "thread" in cal):
+                    if not cal or not (cal.startswith(LV) or cal.startswith(VD) or "crossbeam_channel" in cal or cal.endswith("<impl [T]>::get") or "thread" in cal):
                         continue
                     for a in t["args"]:
                         so = show_origin(b.origin(a))
